@@ -107,7 +107,11 @@ class C10:
 
     def strategy(self, tier):
         kw = dict(max_machines=4, max_obs=3, max_nodes=8) if tier == 'quick' else dict(max_machines=6, max_obs=4, max_nodes=12)
-        base = mix((3, scenarios(delay_model=True, few_machines=True, **kw)), (2, scenarios(delay_model=True, **kw)))
+        base = mix((3, scenarios(delay_model=True, few_machines=True, **kw)), (2, scenarios(delay_model=True, **kw)),
+                   # plan-following schedulers with many tasks piled on one machine: planned machines are busy, fall-backs and
+                   # waits happen, several workflows compete
+                   (2, scenarios(algs=('greedy',), piled_plans=True, delay_model=True, min_obs=2, **dict(kw, max_machines=6))),
+                   (1, scenarios(algs=('dynamic',), piled_plans=True, delay_model=True, min_obs=2, **kw)))
 
         def widen(pair):
             sc, dist = pair
